@@ -535,7 +535,7 @@ impl St {
                         if diff.is_empty() { "ok".to_string() } else { format!("DIFF:{}", diff.join("+")) })
                 })
             }
-            "iter" | "iterb" | "iterd" => {
+            "iter" | "iterb" | "iterd" | "iterds" => {
                 // iter <q> [brk=k] [pan=k] [add=n] [dec=cdbx..] [save=var]
                 let qi: usize = t[1][1..].parse().unwrap();
                 let q = &MENU[qi];
@@ -558,6 +558,7 @@ impl St {
                 let r = guard(|| match t[0] {
                     "iter" => (q.iter)(w, &mut cx),
                     "iterb" => (q.iterb)(w, &mut cx),
+                    "iterds" => (q.iterds)(w, &mut cx),
                     _ => (q.iterd)(w, &mut cx),
                 });
                 REG.with(|r| r.borrow_mut().drop_fault = None);
